@@ -139,10 +139,29 @@ def site_of(exc):
     return "%s:%s" % (site.filename.split("/mutagen/")[-1], site.name)
 
 
-def run_protocol(opener, data, File, Metadata, MutagenError):
+class BufferedLike(io.BytesIO):
+    """an in-memory object with the semantics of open(path, "rb+") - what mutagen works on whenever it is given a file
+    name - where they differ from io.BytesIO: read(n) with n < -1 raises ValueError instead of reading everything, and
+    truncate(n) beyond the end extends the file with zeros"""
+
+    def read(self, n=-1):
+        if n is not None and n < -1:
+            raise ValueError("read length must be non-negative or -1")
+        return io.BytesIO.read(self, n)
+
+    def truncate(self, n=None):
+        size = len(self.getvalue())
+        if n is not None and n > size:
+            pos = self.tell()
+            self.seek(0, 2); self.write(b"\0" * (n - size)); self.seek(pos)
+            return n
+        return io.BytesIO.truncate(self, n)
+
+
+def run_protocol(opener, data, File, Metadata, MutagenError, cls=io.BytesIO):
     """fuzztools.run() with per-step classification; returns list of (step, kind, detail)"""
     out = []
-    f = io.BytesIO(data)
+    f = cls(data)
 
     def step(name, fn):
         k, r = timed(fn, TIME_LIMIT)
@@ -176,7 +195,7 @@ def run_protocol(opener, data, File, Metadata, MutagenError):
     if st == "stop":
         return out, True
     if isinstance(res2, Metadata):
-        g = io.BytesIO()
+        g = cls()
         def empty_cycle():
             res2.save(g); g.seek(0); opener(g); g.seek(0); res2.delete(g)
         k, r = timed(empty_cycle, TIME_LIMIT)
@@ -219,12 +238,21 @@ def _work(task):
     if rng.random() < 0.3:
         data, k2 = mutate(data, rng, others); kind += "+" + k2
     findings = []; calls = 0; past_open = 0
+    like_file = rng.random() < 0.5
     for op in _W["ops"]:
         t0 = time.time()
         res, opened = run_protocol(op, data, _W["File"], _W["Metadata"], _W["ME"])
         calls += 1; past_open += int(opened)
         for step, what, detail in res:
             findings.append((getattr(op, "__name__", str(op)), step, what, detail))
+        if like_file:
+            # the same through an object with the semantics of a file opened by name
+            res, opened = run_protocol(op, data, _W["File"], _W["Metadata"], _W["ME"], cls=BufferedLike)
+            calls += 1
+            have = {(s_, w_) for _, s_, w_, _ in findings}
+            for step, what, detail in res:
+                if (step, what) not in have:
+                    findings.append((getattr(op, "__name__", str(op)), step, what + ":as-real-file", detail))
     return sample, seed, kind, len(data), data != base, calls, past_open, findings
 
 
